@@ -74,6 +74,65 @@ def refract_guard(it, oid, t, k):
     return [R.ob(oid, 'guard_dominance', R.PROVED, 'every sqrt that can reach the result sits on a select arm guarded by its argument being >= 0')]
 
 
+def lx_case(name, k, sc, ud, dfn):
+    def judge(ctx):
+        err = ctx.compile_error(k)
+        if err:
+            return [R.ob(name, 'existence', R.REFUTED, 'cannot be instantiated: ' + err, kernel=k.source())]
+        it = ctx.fn(k)
+        t = L.out_lanes(ctx, k, sc)[0]
+        w = sc.elem * 8
+        D = tm.make('uitofp', (L.in_term('d', ud, 0),), w)
+        oid = name + '[0]'
+
+        def ob(st, detail, at=None):
+            return [R.ob(oid, 'gtx_norm', st, detail, where=R.where_of(it, at if at is not None else t) if st != R.PROVED else None, kernel=k.source())]
+        if not (t.op == 'fn' and t.args[0] == 'pow'):
+            return ob(R.UNDECIDED, 'result is not a pow call: %s' % tm.show(t, 3))
+        base, ex = t.args[1], t.args[2]
+        pc = P.PCtx()
+        st, detail = S.compare(ex, (S.const(w, 1.0) / S.E(D)).t, pc=pc)
+        if st != R.PROVED:
+            return ob(st, 'outer exponent is not 1 / float(Depth): ' + detail, ex)
+        adds = tm.flatten(base, 'fadd')
+        if len(adds) != 3 or not all(a.op == 'fn' and a.args[0] == 'pow' for a in adds):
+            return ob(R.REFUTED if all(a.op == 'fn' and a.args[0] == 'pow' for a in adds) else R.UNDECIDED, 'the outer base is not a sum of three powers: %s' % tm.show(base, 3), base)
+        for a in adds:
+            if a.args[2] is not D:
+                st2, d2 = S.compare(a.args[2], D, pc=pc)
+                if st2 != R.PROVED:
+                    return ob(st2, 'inner exponent is not float(Depth): ' + d2, a)
+        bases = [a.args[1] for a in adds]
+        left = list(range(3))
+        unmatched = []
+        for i in range(3):
+            sp = dfn(i).t
+            hit = None
+            for j in left:
+                if S.compare(bases[j], sp, pc=pc)[0] == R.PROVED:
+                    hit = j
+                    break
+            if hit is None:
+                unmatched.append(i)
+            else:
+                left.remove(hit)
+        if not unmatched:
+            return ob(R.PROVED, '(|d_x|^p + |d_y|^p + |d_z|^p)^(1/p) with p = float(Depth)')
+        # verdict of the first missing component against the closest remaining base
+        worst = (R.UNDECIDED, 'component %d has no matching |d|^p term' % unmatched[0], None)
+        for i in unmatched:
+            for j in left:
+                st3, d3 = S.compare(bases[j], dfn(i).t, pc=pc)
+                if st3 == R.REFUTED and _same_inputs(bases[j], dfn(i).t):
+                    return ob(R.REFUTED, 'the base of the power term of component %d is not |d_%s|: %s' % (i, 'xyz'[i], d3), bases[j])
+        return ob(worst[0], worst[1])
+    return R.Case(name, [k], judge)
+
+
+def _same_inputs(a, b):
+    return {x for x in tm.walk(a) if x.op == 'in'} == {x for x in tm.walk(b) if x.op == 'in'}
+
+
 def cases(tier):
     cs = []
     types = [('float', 'highp'), ('double', 'highp')]
@@ -213,6 +272,17 @@ def type_cases(T, Q):
                            ('l2Norm1', '*o = l2Norm(*a);', lambda: {0: S.sqrt(S.dot(A3('a'), A3('a')))})):
         k = K('%s_%s' % (nm_, v3.tag), [Par('o', sc, False), Par('a', v3)], body, CFG)
         cs.append(spec_case('%s(vec3<%s>)' % (nm_, tg), 'gtx_norm', k, sc, fnn))
+    # lxNorm: (sum_i |d_i|^p)^(1/p) -- pow stays an opaque call, so the rule is structural: outer pow with exponent 1 / float(Depth), three inner pow with exponent float(Depth),
+    # and the three bases are, in some order, |d_x|, |d_y|, |d_z| (each compared with the definition in the usual way); lMaxNorm: max of the three absolute values
+    ud = G.scalar('uint')
+    for nm_, params, body, dfn in (('lxNorm2', [Par('a', v3), Par('b', v3), Par('d', ud)], '*o = lxNorm(*a, *b, *d);', lambda i: S.fabs(S.lane('b', v3, i) - S.lane('a', v3, i))),
+                                   ('lxNorm1', [Par('a', v3), Par('d', ud)], '*o = lxNorm(*a, *d);', lambda i: S.fabs(S.lane('a', v3, i)))):
+        k = K('%s_%s' % (nm_, v3.tag), [Par('o', sc, False)] + params, body, CFG)
+        cs.append(lx_case('%s(vec3<%s>)' % (nm_, tg), k, sc, ud, dfn))
+    for nm_, params, body, dfn in (('lMaxNorm2', [Par('a', v3), Par('b', v3)], '*o = lMaxNorm(*a, *b);', lambda i: S.fabs(S.lane('b', v3, i) - S.lane('a', v3, i))),
+                                   ('lMaxNorm1', [Par('a', v3)], '*o = lMaxNorm(*a);', lambda i: S.fabs(S.lane('a', v3, i)))):
+        k = K('%s_%s' % (nm_, v3.tag), [Par('o', sc, False)] + params, body, CFG)
+        cs.append(spec_case('%s(vec3<%s>)' % (nm_, tg), 'gtx_norm', k, sc, lambda dfn=dfn: {0: S.gmax(S.gmax(dfn(0), dfn(1)), dfn(2))}))
     # closestPointOnLine: clamped-parameter shape
     for vt in (v2, v3):
         n = vt.n
